@@ -47,7 +47,7 @@ DEFAULT_CLASS = {
                 "SEC_SDFW": "nRF9280_sec", "SEC_SYSCTRL": "nRF9280_sys"},
 }
 DOMAINS = ["secure", "application", "radio"]
-CFG_VENDOR = "svmc.example.com"
+CFG_VENDOR = "SVMC-Devices.Example.com"      # mixed case: the name is hashed as written
 
 
 def kconfig_name(role):
